@@ -271,6 +271,7 @@ func drive(id, tier string) int {
 	var samples []any
 	evals := 0
 	var viols []core.Violation
+	classOcc := map[string]int{}
 	var harnessErrs []string
 	extra := map[string]any{}
 	for b, o := range outcomes {
@@ -316,6 +317,9 @@ func drive(id, tier string) int {
 			}
 		}
 		viols = append(viols, r.Violations...)
+		for cl, n := range r.ClassCounts {
+			classOcc[cl] += n
+		}
 		harnessErrs = append(harnessErrs, r.HarnessErr...)
 		for k, v := range r.Extra {
 			mergeExtra(extra, k, v)
@@ -336,19 +340,23 @@ func drive(id, tier string) int {
 	knownSeen := map[string]int{}
 	for _, cl := range classes {
 		vs := byClass[cl]
+		occ := len(vs)
+		if classOcc[cl] > occ {
+			occ = classOcc[cl]
+		}
 		if f := matchKnown(known, id, cl); f != nil {
-			knownSeen[cl] = len(vs)
-			fmt.Printf("KNOWN-FINDING: property=%s %s (%d occurrences this run; listed witness: %s)\n", id, cl, len(vs), oneLine(f.Witness))
+			knownSeen[cl] = occ
+			fmt.Printf("KNOWN-FINDING: property=%s %s (%d occurrences this run; listed witness: %s)\n", id, cl, occ, oneLine(f.Witness))
 			continue
 		}
 		unlisted++
 		v := vs[0]
 		path := filepath.Join(repDir, safeName(cl)+".json")
-		rec := map[string]any{"property": id, "tier": tier, "seed": seed, "violation": v, "occurrences": len(vs)}
+		rec := map[string]any{"property": id, "tier": tier, "seed": seed, "violation": v, "occurrences": occ}
 		jb, _ := json.MarshalIndent(rec, "", " ")
 		os.WriteFile(path, jb, 0o644)
 		fmt.Printf("VIOLATION property=%s replay=%s\n", id, path)
-		fmt.Printf("  class=%s occurrences=%d\n  %s\n", cl, len(vs), oneLine(v.Msg))
+		fmt.Printf("  class=%s occurrences=%d\n  %s\n", cl, occ, oneLine(v.Msg))
 		if v.Input != "" {
 			fmt.Printf("  input: %s\n", oneLine(trunc(v.Input, 400)))
 		}
